@@ -158,4 +158,116 @@ theorem validate_reorder_state (c : Cfg) (t : Topo) (h : (validate c t).1 = .ok 
 
 end
 
+/-! ### validating twice is validating once -/
+
+def withSite (s : Svc) (x : Option String) : Svc := { s with site := x }
+
+theorem nifs_withSite (s : Svc) (x : Option String) : nifs (withSite s x) = nifs s := by
+  unfold nifs
+  have : nifOf (withSite s x) = nifOf s := funext fun i => by cases i <;> rfl
+  show s.ifs.filterMap (nifOf (withSite s x)) = _
+  rw [this]
+
+theorem rso_keep (row : SvcRow) (s : Svc) (n : List NIface) (h : ¬(row.numSites ≠ 0 ∧ truthy s.site = false)) :
+    recordedSiteOf row s n = s.site := by
+  unfold recordedSiteOf; rw [if_neg h]
+
+theorem rso_single (row : SvcRow) (s : Svc) (n : List NIface) (x : String) (h : row.numSites ≠ 0 ∧ truthy s.site = false)
+    (hd : dedup (n.filterMap (·.owner)) = [x]) : recordedSiteOf row s n = some x := by
+  unfold recordedSiteOf; rw [if_pos h, hd]
+
+theorem rso_other (row : SvcRow) (s : Svc) (n : List NIface) (hd : ∀ x, dedup (n.filterMap (·.owner)) ≠ [x]) :
+    recordedSiteOf row s n = s.site := by
+  unfold recordedSiteOf
+  split
+  · split
+    · rename_i x hx; exact absurd hx (hd x)
+    · rfl
+  · rfl
+
+theorem recordedSite_idem (row : SvcRow) (s : Svc) :
+    recordedSite row (withSite s (recordedSite row s)) = recordedSite row s := by
+  unfold recordedSite
+  rw [nifs_withSite]
+  generalize nifs s = n
+  by_cases hc : row.numSites ≠ 0 ∧ truthy s.site = false
+  · by_cases hx : ∃ x, dedup (n.filterMap (·.owner)) = [x]
+    · obtain ⟨x, hd⟩ := hx
+      rw [rso_single row s n x hc hd]
+      by_cases hc' : row.numSites ≠ 0 ∧ truthy (withSite s (some x)).site = false
+      · exact rso_single row _ n x hc' hd
+      · exact rso_keep row _ n hc'
+    · have hd : ∀ x, dedup (n.filterMap (·.owner)) ≠ [x] := fun x h => hx ⟨x, h⟩
+      rw [rso_other row s n hd]
+      exact rso_other row _ n hd
+  · rw [rso_keep row s n hc]
+    exact rso_keep row (withSite s s.site) n hc
+
+theorem svcOK_recorded (c : Cfg) (exp : Bool) (row : SvcRow) (s : Svc) (h : SvcOK c exp row s) :
+    SvcOK c exp row (withSite s (recordedSite row s)) := by
+  have hn := nifs_withSite s (recordedSite row s)
+  have hr := recordedSite_idem row s
+  have hport : ∀ i, nifOf (withSite s (recordedSite row s)) i = nifOf s i := fun i => by cases i <;> rfl
+  refine ⟨fun i hi => by rw [hport]; exact h.ports i hi, ?_, h.getters, fun p hp => ?_, fun p hp => ?_, by rw [hn]; exact h.ifTypes⟩
+  · rw [hn]
+    refine ⟨h.nstype.minIfs, h.nstype.maxIfs, h.nstype.owners, h.nstype.maxSites, ?_⟩
+    intro h0 ht i hi
+    have ht' : truthy (recordedSite row s) = true := ht
+    show i.owner = recordedSite row s
+    by_cases hc : row.numSites ≠ 0 ∧ truthy s.site = false
+    · by_cases hx : ∃ x, dedup ((nifs s).filterMap (·.owner)) = [x]
+      · obtain ⟨x, hd⟩ := hx
+        have : recordedSite row s = some x := rso_single row s _ x hc hd
+        rw [this]
+        obtain ⟨_, hall⟩ := (dedup_eq_singleton _ x).mp hd
+        exact all_owner_eq (h.nstype.owners h0) hall i hi
+      · have hd : ∀ x, dedup ((nifs s).filterMap (·.owner)) ≠ [x] := fun x h => hx ⟨x, h⟩
+        have : recordedSite row s = s.site := rso_other row s _ hd
+        rw [this] at ht'
+        rw [hc.2] at ht'; cases ht'
+    · have : recordedSite row s = s.site := rso_keep row s _ hc
+      rw [this] at ht' ⊢
+      exact h.nstype.siteAgrees h0 ht' i hi
+  · have := h.required p hp
+    rw [hr]; exact this
+  · have := h.forbidden p hp
+    rw [hr]; exact this
+
+theorem recordSite_eq (c : Cfg) (s : Svc) (row : SvcRow) (hl : c.svc.lookup s.ty = some row) :
+    recordSite c s = withSite s (recordedSite row s) := by
+  unfold recordSite; rw [hl]; rfl
+
+theorem recordSite_idem (c : Cfg) (s : Svc) : recordSite c (recordSite c s) = recordSite c s := by
+  cases hl : c.svc.lookup s.ty with
+  | none => simp [recordSite, hl]
+  | some row =>
+    rw [recordSite_eq c s row hl]
+    have hl' : c.svc.lookup (withSite s (recordedSite row s)).ty = some row := hl
+    rw [recordSite_eq c _ row hl', recordedSite_idem]
+    rfl
+
+/-- **Validating a slice that has just been validated succeeds again and changes nothing.** -/
+theorem validate_idem (c : Cfg) (t : Topo) (h : (validate c t).1 = .ok ()) :
+    validate c (validate c t).2 = (.ok (), (validate c t).2) := by
+  have hspec := (validate_ok c t).mp h
+  have hst := validate_state c t h
+  have hmap : (t.svcs.map (recordSite c)).map (recordSite c) = t.svcs.map (recordSite c) := by
+    rw [List.map_map]
+    exact List.map_congr_left fun s _ => recordSite_idem c s
+  have hspec' : SpecOK c (validate c t).2 := by
+    rw [hst]
+    refine ⟨hspec.nodes, fun s' hs' => ?_, by show InstOK c ((t.svcs.map (recordSite c)).map (recordSite c)); rw [hmap]; exact hspec.instances⟩
+    obtain ⟨s, hs, rfl⟩ := List.mem_map.mp hs'
+    obtain ⟨row, hl, hk⟩ := hspec.svcs s hs
+    rw [recordSite_eq c s row hl]
+    exact ⟨row, hl, svcOK_recorded c t.exp row s hk⟩
+  have hok := (validate_ok c _).mpr hspec'
+  have hst' := validate_state c _ hok
+  have h2 : (validate c (validate c t).2).2 = (validate c t).2 := by
+    rw [hst']
+    rw [hst]
+    show ({ t with svcs := (t.svcs.map (recordSite c)).map (recordSite c) } : Topo) = _
+    rw [hmap]
+  exact Prod.ext hok h2
+
 end FimVerif.Validate
